@@ -105,6 +105,7 @@ structure RR where
   nlink : Option Nat := none
   symlink : Option (List UInt8) := none
   slCont : Bool := false            -- previous SL component had CONTINUE
+  slFinal : Bool := false           -- an SL entry without the CONTINUE flag has been seen: the target is complete
   slNeedSep : Bool := false
   cl : Option Nat := none
   pl : Option Nat := none
@@ -203,8 +204,13 @@ def suspArea (i : Img) (where_ : String) (isRootDot : Bool) : List UInt8 → RR 
       else if sig = "SL" then
         if len < 5 then err s!"sl-length:{where_}"
         else
-          let r0 := if r.symlink.isNone then { r with symlink := some [] } else r
-          r ← slComponents where_ (body.drop 1) r0 300
+          -- RRIP 4.1.3: bit 0 of the SL flags says that the target continues in the next SL entry; after an entry
+          -- without it the target is complete, and a reader stops there
+          if r.slFinal then err s!"sl-after-final:{where_}"
+          else
+            let r0 := if r.symlink.isNone then { r with symlink := some [] } else r
+            let r1 ← slComponents where_ (body.drop 1) r0 300
+            r := { r1 with slFinal := body[0]!.toNat % 2 = 0 }
       else if sig = "TF" then
         let fl := body[0]!.toNat
         let per := if fl / 128 % 2 = 1 then 17 else 7
